@@ -39,7 +39,10 @@ def c06_nested():
     return c06.NESTED + ["&a = d1000; a", "&a = 2d1000; func g(){ a }; g()"]
 
 
-METHOD_PROGRAMS = ["[3,1,2].kh(1+1)", "[3,1,2].kl(2-1)", "[1,2,3].sum()", "[1,2,3].len()", "{'a':1}.keys()", "{'a':1}.values()", "{'a':1}.items()",
+_FOREIGN = "i = 0; n = 0; while i < x.len() { if x[i] == 'patched' || x[i] == 42 || x[i] == 0 { n = n + 1 }; i = i + 1 }; [x.len(), n]"
+METHOD_PROGRAMS = ["x = dir([1,2,3]); " + _FOREIGN, "x = dir({}); " + _FOREIGN, "x = dir('s'); " + _FOREIGN, "d + 2d",   # (dir() order is Go map order: compare order-insensitively) "func g(u) { d + u }; g(1)", "&cv = 2d; cv",      # readers first ...
+                   "x = dir([]); x[0] = 'patched'; x[1] = 42; x.len()", "dir([]).shuffle().len()", "y = dir({}); y[0] = 0; y.len()",          # ... then writers
+                   "[3,1,2].kh(1+1)", "[3,1,2].kl(2-1)", "[1,2,3].sum()", "[1,2,3].len()", "{'a':1}.keys()", "{'a':1}.values()", "{'a':1}.items()",
                    "[1,2,3].rand()", "[1,2,3,4].shuffle()", "[1,2,3,4].randSize(1+1)", "x=[3,1,2]; m=x.kh; m(2)", "x=[5,6]; x.push(7); x.pop(); x.shift()",
                    "&cv = 1 + 1; &cv.compute()", "[[1,2].sum(), [3,4].sum(), [5].len()]", "x = [1,2,3]; [x.kh(), x.kl(), x.sum(), x.len()]",
                    "func g(u) { u.sum() }; g([1,2]) + g([3])"]
@@ -61,8 +64,17 @@ def make_jobs(rnd, n):
         else:
             src = rnd.choice(["(1+2", "1 +", "[1,2", "'abc", "if", "break", "x = = 1", ".\n", "`{% %}`", "1 ? 2", "func (", ")", "", " ", "\n", "\t\n ",
                               "/", "%", "1 +\n\n", "\xff"]).encode("latin-1")
-        jobs.append({"b64": base64.b64encode(src).decode(), "flags": [rnd.random() < 0.7 for _ in range(4)] + [rnd.random() < 0.2 for _ in range(3)],
-                     "lang": rnd.randrange(3), "hi": str(rnd.getrandbits(64)), "lo": str(rnd.getrandbits(64)), "seeded": rnd.random() < 0.85, "viaseed": rnd.random() < 0.5})
+        jobs.append({"nodetail": b"dir(" in src, "b64": base64.b64encode(src).decode(), "flags": [rnd.random() < 0.7 for _ in range(4)] + [rnd.random() < 0.2 for _ in range(3)],
+                     "lang": rnd.randrange(3), "hi": str(rnd.getrandbits(64)), "lo": str(rnd.getrandbits(64)), "seeded": rnd.random() < 0.85, "viaseed": rnd.random() < 0.5,
+                     # the same default-sides text under different syntax flags (bit-wise operators on / off): compiled per VM
+                     "defexpr": rnd.choice(["", "", "1024|3", "1024|3", "d4", "20", "8&12"])})
+    # the same default-sides text compiled under different syntax flags in different VMs (each VM compiles it for itself)
+    # (max mode: a bare `d` is exactly the number of sides, 1024|3 = 1027 with bit-wise operators, 1024 when they are disabled and `|3` is left unread)
+    for prog, k in (("d + 2d", 3), ("func g(u) { d + u }; g(0)", 1), ("&cv = 2d; cv", 2), ("d", 1)):
+        for nobit in (True, False, True, False):
+            jobs.append({"nodetail": False, "b64": base64.b64encode(prog.encode()).decode(), "flags": [True] * 4 + [nobit, False, False], "lang": 0,
+                         "hi": str(rnd.getrandbits(64)), "lo": str(rnd.getrandbits(64)), "seeded": True, "viaseed": False, "defexpr": "1024|3",
+                         "mode": 1, "expect": str(k * (1024 if nobit else 1027))})
     return jobs
 
 
@@ -86,7 +98,7 @@ def run(res, tier, seed):
     for d in (out.get("diffs") or [])[:3]:
         j = jobs[d["job"]]
         res.violation({"what": "a VM run concurrently with other VMs returned something else than when run alone",
-                       "source": base64.b64decode(j["b64"]).decode("utf-8", "replace"), "config": {k: j[k] for k in ("flags", "lang", "hi", "lo")},
+                       "source": base64.b64decode(j["b64"]).decode("utf-8", "replace"), "config": {k: j.get(k) for k in ("flags", "lang", "hi", "lo", "seeded", "viaseed", "defexpr")},
                        "got": d["got"], "want": d["want"], "goroutines": g})
         found += 1
     for d in (out.get("deferred") or [])[:3]:
